@@ -184,25 +184,66 @@ cc = make(payload)
 cc.pdC = payload.get('pdC', True); cc.pdT = True
 cc.nx, cc.nt = payload.get('nx', 40), payload.get('nt', 48)
 cc.ni_num_cores = payload.get('cores', 2); cc.ni_method = payload.get('method', 'trapz2d')
+cc.uTM = payload.get('uTM', 0.); cc.thetaTdeg = payload.get('thetaTdeg', 0.)
+inc = payload.get('inc', 1.)
 cc._rebuild()
 n = cc.get_size() - len(cc.excluded_dofs)
 rs = np.random.RandomState(payload.get('seed', 0))
 c = rs.uniform(-1, 1, size=n)*payload.get('amp', 0.2)
-kT = np.asarray(cc.calc_kT(c, inc=1., silent=True).todense())
-f0 = np.asarray(cc.calc_fint(c, inc=1., return_u=True, silent=True)).ravel()
+kT = np.asarray(cc.calc_kT(c, inc=inc, silent=True).todense())
+f0 = np.asarray(cc.calc_fint(c, inc=inc, return_u=True, silent=True)).ravel()
 h = payload.get('h', 1e-3)
 J = np.zeros((n, n))
 for j in range(n):
     e = np.zeros(n); e[j] = h
-    fp = np.asarray(cc.calc_fint(c + e, inc=1., return_u=True, silent=True)).ravel()
-    fm = np.asarray(cc.calc_fint(c - e, inc=1., return_u=True, silent=True)).ravel()
+    fp = np.asarray(cc.calc_fint(c + e, inc=inc, return_u=True, silent=True)).ravel()
+    fm = np.asarray(cc.calc_fint(c - e, inc=inc, return_u=True, silent=True)).ravel()
     J[:, j] = (fp - fm)/(2*h)
 k0uu = np.asarray(cc.k0uu.todense())
 scale = abs(J - k0uu).max()      # size of the state-dependent part
 d = abs(kT - J)
 idx = np.argwhere(d > 1e-4*scale + 1e-13*abs(J).max()/h)
-zero = np.asarray(cc.calc_fint(np.zeros(n), inc=1., return_u=True, silent=True)).ravel()
+zero = np.asarray(cc.calc_fint(np.zeros(n), inc=inc, return_u=True, silent=True)).ravel()
 out = {'n': n, 'scale': float(scale), 'max_abs_difference': float(d.max()), 'asymmetry_of_kT': float(abs(kT - kT.T).max()),
        'n_entries_off': int(len(idx)), 'first': [{'row': int(i), 'col': int(j), 'kT': float(kT[i, j]), 'dfint_dc': float(J[i, j])} for i, j in idx[:6]],
        'fint_at_zero_max': float(abs(zero).max())}
+'''
+
+LINMAT = COMMON + r'''
+from compmech.sparse import make_symmetric
+import compmech.conecyl.modelDB as modelDB
+bad = []
+def dense(m):
+    return np.asarray(make_symmetric(m).todense())
+for model in payload['models']:
+  for alphadeg in (0., 30.):
+    pay = dict(payload); pay['model'] = model; pay['alphadeg'] = alphadeg
+    if model.startswith('iso_'):
+        pay['iso'] = [71e3, 0.33, 2.]
+    ref = {}
+    for clc in (None, 1):
+        cc = make(pay); cc.Fc = 1000.; cc.P = 0.05; cc.T = 2e4; cc.s = 11
+        cc._calc_linear_matrices(combined_load_case=clc)
+        lin = modelDB.db[model]['linear']; gl = modelDB.db[model[4:] if model.startswith('iso_') else model]['linear']
+        Fc = cc.Nxxtop[0]*(2*np.pi*cc.r2*cc.cosa)
+        mat = [cc.E11, cc.nu, cc.h] if model.startswith('iso_') else [cc.F]
+        if alphadeg == 0.:
+            k0 = lin.fk0_cyl(cc.r2, cc.L, *mat, cc.m1, cc.m2, cc.n2)
+            kg = lambda a, b, c: gl.fkG0_cyl(a, b, c, cc.r2, cc.L, cc.m1, cc.m2, cc.n2)
+        else:
+            k0 = lin.fk0(cc.alpharad, cc.r2, cc.L, *mat, cc.m1, cc.m2, cc.n2, cc.s)
+            kg = lambda a, b, c: gl.fkG0(a, b, c, cc.r2, cc.alpharad, cc.L, cc.m1, cc.m2, cc.n2, cc.s)
+        got = {}
+        if clc is None:
+            got['kG0'] = cc.kG0; want = {'kG0': kg(Fc, cc.P, cc.T)}
+        else:
+            got = {'kG0_Fc': cc.kG0_Fc, 'kG0_P': cc.kG0_P, 'kG0_T': cc.kG0_T}
+            want = {'kG0_Fc': kg(Fc, 0, 0), 'kG0_P': kg(0, cc.P, 0), 'kG0_T': kg(0, 0, cc.T)}
+        for k in got:
+            g, w = np.asarray(got[k].todense()), dense(want[k])
+            if abs(g - w).max() > 1e-9*max(abs(w).max(), 1e-30):
+                bad.append({'model': model, 'alphadeg': alphadeg, 'combined_load_case': clc, 'matrix': k, 'max_abs_difference': float(abs(g - w).max())})
+        if abs(np.asarray(cc.k0.todense()) - np.asarray(cc.k0.todense()).T).max() > 0:
+            bad.append({'model': model, 'alphadeg': alphadeg, 'matrix': 'k0', 'not symmetric': True})
+out = {'n_mismatch': len(bad), 'first': bad[:6]}
 '''
